@@ -1,6 +1,8 @@
 package compiler
 
 import (
+	"fmt"
+
 	"github.com/grafana/cog/internal/ast"
 	"github.com/grafana/cog/internal/tools"
 )
@@ -32,6 +34,7 @@ var _ Pass = (*AnonymousStructsToNamed)(nil)
 //	```
 type AnonymousStructsToNamed struct {
 	newObjects []ast.Object
+	usedNames  map[string]struct{}
 }
 
 func (pass *AnonymousStructsToNamed) Process(schemas []*ast.Schema) ([]*ast.Schema, error) {
@@ -45,6 +48,10 @@ func (pass *AnonymousStructsToNamed) Process(schemas []*ast.Schema) ([]*ast.Sche
 
 func (pass *AnonymousStructsToNamed) processSchema(schema *ast.Schema) *ast.Schema {
 	pass.newObjects = nil
+	pass.usedNames = make(map[string]struct{}, schema.Objects.Len())
+	schema.Objects.Iterate(func(name string, _ ast.Object) {
+		pass.usedNames[name] = struct{}{}
+	})
 
 	schema.Objects = schema.Objects.Map(func(_ string, object ast.Object) ast.Object {
 		return pass.processObject(object)
@@ -114,7 +121,28 @@ func (pass *AnonymousStructsToNamed) processDisjunction(pkg string, parentName s
 	return def
 }
 
+// uniqueName returns the given name, or that name followed by a number if an
+// object with that name already exists: two anonymous structs met under the same
+// parent (the branches of a disjunction, for example) must not share a name, or
+// the second definition silently replaces the first.
+func (pass *AnonymousStructsToNamed) uniqueName(name string) string {
+	candidate := name
+	for i := 2; ; i++ {
+		if _, used := pass.usedNames[candidate]; !used {
+			break
+		}
+
+		candidate = fmt.Sprintf("%s%d", name, i)
+	}
+
+	pass.usedNames[candidate] = struct{}{}
+
+	return candidate
+}
+
 func (pass *AnonymousStructsToNamed) processStruct(pkg string, parentName string, def ast.Type) ast.Type {
+	parentName = pass.uniqueName(parentName)
+
 	objectDef := def.DeepCopy()
 	objectDef.Nullable = false
 
